@@ -4,8 +4,9 @@ open AC.Props.C06
 #print axioms C06_dangling_refused
 #print axioms C06_empty_refused
 #print axioms C06_accepted_shape
-#print axioms C06_validated_wf
-#print axioms C06_validated_wfB
+#print axioms C06_duplicate_output_refused
+#print axioms C06_accepted_wf
+#print axioms C06_accepted_listing_correct
 #print axioms C06_listing_readback
 #print axioms C06_listing_correct
 #print axioms C06_prepare_listing
